@@ -478,6 +478,10 @@ class Simulation:
         ss = SeedSequence(self.random_seed)
         child_seeds = ss.spawn(iterations)
 
+        # A previous run on the same system may have ended in the
+        # middle of an outage, the system is prepared from its normal state
+        reset_system(self.power_system, save_flag)
+
         # Prepare power system for simulation
         time_array = prepare_system(
             power_system=self.power_system,
